@@ -290,7 +290,11 @@ def monitorC08 (cx : Ctx) : List Finding :=
   monitorPanics cx "C08" ++
   (monitorC01 cx).map (fun f => { f with prop := "C08", clause := "inputs-changed" }) ++
   ((monitorC05 cx).filterMap fun f =>
-    if f.clause == "spurious-disconnect" then some { f with prop := "C08", clause := "connection-state" } else none) ++
+    if f.clause == "spurious-disconnect" then some { f with prop := "C08", clause := "connection-state" }
+    -- valid traffic must still be processed after a malformed or foreign packet (also during the
+    -- handshake: a stranger's SyncReply is a stray reply like any other)
+    else if f.clause == "no-progress" then some { f with prop := "C08", clause := "valid-traffic-afterwards" }
+    else none) ++
   -- a peer that has gone silent must time out even while foreign packets keep arriving from its
   -- address (the silence is measured over packets carrying the peer's magic only)
   (monitorC07 cx).filterMap fun f =>
